@@ -41,6 +41,16 @@ def soap_env(ns, body):
 
 # request documents per input protocol family: kind -> (method, path, query, body, content type)
 def requests_for(family):
+    d = _requests_for(family)
+    # transport-level variants of the valid request (every family): a declared length above the limit, a length that is
+    # not a number -- (method, path, query, body, content type, extra environ)
+    if family != 'http':          # HttpRpc never reads the body of a GET request: its Content-Length is not consulted
+        d['declared_too_long'] = d['valid'] + ({'CONTENT_LENGTH': str(10 ** 9)},)
+        d['content_length_not_a_number'] = d['valid'] + ({'CONTENT_LENGTH': 'twelve'},)
+    return d
+
+
+def _requests_for(family):
     if family == 'http':
         return {
             'valid': ('GET', '/m', 'i=5', b'', 'text/plain'),
@@ -103,7 +113,11 @@ def requests_for(family):
     raise KeyError(family)
 
 
-def protocols(family, validator='soft'):
+def protocols(family, validator='soft', **kw):
+    """kw: protocol options (complex_as, ignore_wrappers, polymorphic ...) for the dict-document families."""
+    if kw and family in ('json', 'yaml', 'msgpack'):
+        P = {'json': JsonDocument, 'yaml': YamlDocument, 'msgpack': MessagePackDocument}[family]
+        return P(validator=validator, **kw), P(**kw)
     if family == 'http':
         return HttpRpc(validator=validator), JsonDocument()
     if family == 'json':
@@ -122,12 +136,14 @@ def protocols(family, validator='soft'):
 
 
 FAMILIES_ALL = ['http', 'json', 'soap11', 'soap12', 'xml', 'yaml', 'msgpack']
-USER_OUTCOMES = ['return', 'client_fault', 'server_fault', 'non_fault', 'non_fault_noargs', 'non_fault_2args']
+USER_OUTCOMES = ['return', 'client_fault', 'server_fault', 'non_fault', 'non_fault_noargs', 'non_fault_2args',
+                 'non_fault_typeerror', 'non_fault_valueerror', 'non_fault_keyerror', 'non_fault_typeerror_subclass',
+                 'non_fault_unicode_error']
 
 
 class Harness(object):
     def __init__(self, c, family, validator='soft', failing=None, chunked=True, user_outcomes=USER_OUTCOMES,
-                 content_length='exact'):
+                 content_length='exact', prot_kwargs=None):
         self.c = c
         self.family = family
         self.failing = failing      # None or (manager label, event name, 'fault'|'other')
@@ -155,7 +171,7 @@ class Harness(object):
             pass
 
         self.Svc = Svc
-        inp, outp = protocols(family, validator)
+        inp, outp = protocols(family, validator, **(prot_kwargs or {}))
         self.app = Application([Svc], TNS, name='VApp', in_protocol=inp, out_protocol=outp)
         self.wsgi = WsgiApplication(self.app, chunked=chunked)
         self.managers = [('app', self.app.event_manager, METHOD_EVENTS),
@@ -199,7 +215,17 @@ class Harness(object):
         if k == 'server_fault':
             self.the_fault = Fault('Server.Custom', 'server fault')
             raise self.the_fault
-        if k == 'non_fault_noargs':
+        if k == 'non_fault_typeerror':
+            self.the_exception = TypeError("unsupported operand " + SECRET)
+        elif k == 'non_fault_valueerror':
+            self.the_exception = ValueError(SECRET)
+        elif k == 'non_fault_keyerror':
+            self.the_exception = KeyError(SECRET)
+        elif k == 'non_fault_typeerror_subclass':
+            self.the_exception = type('AppTypeError', (TypeError,), {})(SECRET)
+        elif k == 'non_fault_unicode_error':
+            self.the_exception = UnicodeDecodeError('utf8', SECRET.encode(), 0, 1, 'bad ' + SECRET)
+        elif k == 'non_fault_noargs':
             self.the_exception = AssertionError()
         elif k == 'non_fault_2args':
             self.the_exception = OSError(2, SECRET)
@@ -208,7 +234,9 @@ class Harness(object):
         raise self.the_exception
 
     def env(self, kind):
-        method, path, qs, body, ctype = requests_for(self.family)[kind]
+        req = requests_for(self.family)[kind]
+        method, path, qs, body, ctype = req[:5]
+        extra = req[5] if len(req) > 5 else {}
         e = {'REQUEST_METHOD': method, 'PATH_INFO': path, 'QUERY_STRING': qs, 'SERVER_NAME': 'h',
              'SERVER_PORT': '80', 'wsgi.url_scheme': 'http', 'wsgi.input': io.BytesIO(body),
              'CONTENT_TYPE': ctype}
@@ -216,6 +244,7 @@ class Harness(object):
             e['CONTENT_LENGTH'] = str(len(body))
         elif self.content_length == 'empty':
             e['CONTENT_LENGTH'] = ''
+        e.update(extra)
         return e
 
     def run_wsgi(self, kind, abort_after=None):
